@@ -1004,6 +1004,15 @@ void bn_rec_frb(bn_t *ki, int sub, const bn_t k, const bn_t x, const bn_t n,
 					bn_neg(ki[i], ki[i]);
 				}
 			}
+			/* A scalar below n has one more digit only when n = x^sub + 1 and
+			 * k = n - 1 = x^sub (e.g. GMT8); there x^sub = -1 mod n. */
+			if (!bn_is_zero(v[0])) {
+				if (sk == RLC_NEG) {
+					bn_add(ki[0], ki[0], v[0]);
+				} else {
+					bn_sub(ki[0], ki[0], v[0]);
+				}
+			}
 		} else {
 			bn_copy(v[1], x);
 			bn_copy(v[2], x);
